@@ -350,6 +350,15 @@ class Ctx:
         E = self.E
         t0 = _time.perf_counter()
         r = E.solver.check()
+        if r == z3.unknown:
+            # a starved machine can make a trivial query miss its wall-clock limit: ask again with more time before giving
+            # up (still `unknown` afterwards = inconclusive, never a pass)
+            for ms in (60000, 240000):
+                E.solver.set('timeout', ms)
+                r = E.solver.check()
+                if r != z3.unknown:
+                    break
+            E.solver.set('timeout', E.solver_timeout_ms)
         E.stats.solver_s += _time.perf_counter() - t0
         E.stats.queries += 1
         return r
@@ -740,6 +749,7 @@ class ConcreteCtx:
 class Engine:
     def __init__(self, solver_timeout_ms=20000, seed=0):
         self.solver = z3.Solver()
+        self.solver_timeout_ms = solver_timeout_ms
         self.solver.set('timeout', solver_timeout_ms)
         self.stats = Stats()
         self.errors = []
